@@ -187,10 +187,23 @@ def drive(lines, timeout=3000):
         raise Infra("driver executable missing (run ./setup.sh)")
     if not lines:
         return []
-    p = subprocess.run([DRIVER], input="\n".join(lines) + "\n", capture_output=True, text=True, timeout=timeout)
-    out = p.stdout.splitlines()
-    if p.returncode != 0 or len(out) != len(lines):
-        raise Infra("driver failed rc=%s answered %d of %d lines: %s" % (p.returncode, len(out), len(lines), p.stderr[-500:]))
+
+    def one(chunk):
+        p = subprocess.run([DRIVER], input="\n".join(chunk) + "\n", capture_output=True, text=True, timeout=timeout)
+        o = p.stdout.splitlines()
+        if p.returncode != 0 or len(o) != len(chunk):
+            raise Infra("driver failed rc=%s answered %d of %d lines: %s" % (p.returncode, len(o), len(chunk), p.stderr[-500:]))
+        return o
+
+    nproc = min(int(os.environ.get("VERIF_JOBS", "8")), max(1, len(lines) // 100))
+    if nproc <= 1:
+        out = one(lines)
+    else:       # the driver is a pure function of each line: split the batch, keep the order
+        from concurrent.futures import ThreadPoolExecutor
+        size = (len(lines) + nproc * 4 - 1) // (nproc * 4)
+        chunks = [lines[i:i + size] for i in range(0, len(lines), size)]
+        with ThreadPoolExecutor(max_workers=nproc) as ex:
+            out = [a for o in ex.map(one, chunks) for a in o]
     for a, l in zip(out, lines):
         if a == "bad-line":
             raise Infra("driver could not parse: " + l[:300])
